@@ -171,11 +171,10 @@ func (c *compiler) newCompilerScope(compilerScope compilerScopeType, Ast ast.Ast
 	newC.private = private
 
 	if newSymTable.NeedsClassClosure {
-		// Cook up a implicit __class__ cell.
+		// The implicit __class__ cell is cooked up in compileAst
 		if compilerScope != compilerScopeClass {
 			panic("class closure not in class")
 		}
-		newSymTable.Symbols["__class__"] = symtable.Symbol{Scope: symtable.ScopeCell}
 	}
 
 	err := newC.compileAst(Ast, c.Code.Filename, 0, false, newSymTable)
@@ -196,6 +195,12 @@ func (c *compiler) compileAst(Ast ast.Ast, filename string, futureFlags int, don
 	code := c.Code
 	code.Filename = filename
 	code.Varnames = append(code.Varnames, SymTable.Varnames...)
+	if SymTable.NeedsClassClosure {
+		// Cook up a implicit __class__ cell (it must be the first cell).
+		// The class body's own references to the name __class__ keep
+		// the scope the symbol table gave them.
+		code.Cellvars = append(code.Cellvars, "__class__")
+	}
 	code.Cellvars = append(code.Cellvars, SymTable.Find(symtable.ScopeCell, 0)...)
 	code.Freevars = append(code.Freevars, SymTable.Find(symtable.ScopeFree, symtable.DefFreeClass)...)
 	code.Flags = c.codeFlags(SymTable) | int32(futureFlags&py.CO_COMPILER_FLAGS_MASK)
